@@ -1,11 +1,13 @@
 import Noodles.Basic.Wire
 import Noodles.Csi.Driver
+import Noodles.Bgzf.Driver
 namespace Noodles
 open Noodles.Wire
 
 def dispatch (line : String) : String :=
   match words line with
   | "c17" :: rest => Csi.handle rest
+  | "c01" :: rest => Bgzf.handleC01 rest
   | _ => "bad-suite"
 
 end Noodles
